@@ -61,12 +61,15 @@ func (w *world) initValidators() {
 	w.vkey = w.vkeys[0]
 	w.vaddr = w.vkey.PubKey().Address()
 	w.valRef = map[string]int64{}
+	w.caRef, w.refuseRef = map[string]bool{}, map[string]bool{}
 	if len(w.cfg.Powers) == 0 {
 		w.valRef[string(w.vaddr)] = 10
+		w.caRef[string(w.vaddr)] = true
 		return
 	}
 	for i, p := range w.cfg.Powers {
 		w.valRef[string(w.vkeys[i].PubKey().Address())] = p
+		w.caRef[string(w.vkeys[i].PubKey().Address())] = i%2 == 0
 	}
 }
 
@@ -74,7 +77,7 @@ func (w *world) genesisValidators() []types.GenesisValidator {
 	var gv []types.GenesisValidator
 	for i, k := range w.vkeys {
 		if p, ok := w.valRef[string(k.PubKey().Address())]; ok {
-			gv = append(gv, types.GenesisValidator{PubKey: k.PubKey(), Amount: p, Name: fmt.Sprintf("v%d", i)})
+			gv = append(gv, types.GenesisValidator{PubKey: k.PubKey(), Amount: p, Name: fmt.Sprintf("v%d", i), IsCA: w.caRef[string(k.PubKey().Address())]})
 		}
 	}
 	return gv
@@ -459,14 +462,21 @@ func (w *world) refApply(pre map[string]int64, attrs []*types.ValidatorAttr) {
 		case types.ValidatorCmdAddPeer:
 			if !member {
 				w.valRef[addr] = at.Power
+				w.caRef[addr] = at.Power > 0
+				delete(w.refuseRef, string(pk[:]))
 			}
 		case types.ValidatorCmdUpdateNode:
 			if member && cur != at.Power {
 				w.valRef[addr] = at.Power
+				w.caRef[addr] = at.Power > 0
+				delete(w.refuseRef, string(pk[:]))
 			}
 		case types.ValidatorCmdRemoveNode:
 			if member {
 				delete(w.valRef, addr)
+				delete(w.caRef, addr)
+				w.refuseRef[string(pk[:])] = true
+				w.removedKeys = append(w.removedKeys, addr)
 			}
 		}
 	}
